@@ -98,7 +98,7 @@ class Error(Exception):
 class WebSocketServer(websocket.WebSocketServerProtocol):
     def __init__(self):
         websocket.WebSocketServerProtocol.__init__(self)
-        self._app = None
+        self._app_id = None
         self._side = None
         self._did_allocate = False # only one allocate() per websocket
         self._listening = False
@@ -109,6 +109,15 @@ class WebSocketServer(websocket.WebSocketServerProtocol):
         self._mailbox = None
         self._mailbox_id = None
         self._did_close = False
+
+    @property
+    def _app(self):
+        # Server.prune_all_apps() discards idle AppNamespace objects, so
+        # look ours up each time instead of keeping a reference to one that
+        # may no longer be the registered one
+        if self._app_id is None:
+            return None
+        return self.factory.server.get_app(self._app_id)
 
     def onConnect(self, request):
         rv = self.factory.server
@@ -168,7 +177,8 @@ class WebSocketServer(websocket.WebSocketServerProtocol):
             raise Error("bind requires 'appid'")
         if "side" not in msg:
             raise Error("bind requires 'side'")
-        self._app = self.factory.server.get_app(msg["appid"])
+        assert isinstance(msg["appid"], type("")), type(msg["appid"])
+        self._app_id = msg["appid"]
         self._side = msg["side"]
         client_version = msg.get("client_version", (None, None))
         # e.g. ("python", "0.xyz") . <=0.10.5 did not send client_version
